@@ -135,6 +135,14 @@ def scenario(ctx, rng, j):
             else:
                 coll = hashlib.shake_256(wrong).digest(hs) == \
                     hashlib.shake_256(pre).digest(hs)
+            if fam == 'htlc2':
+                # the htlc2 layout commits to the keys by a digest as well
+                # (20 bytes for sha256 locks, hash_size for shake256 locks): a
+                # tiny hash_size lets unrelated keys collide by design
+                ks = 20 if hname == 'sha256' else hs
+                kd = [hashlib.shake_256(sigmsg.pubkey(z)).digest(ks)
+                      for z in (R, F, X)]
+                coll = coll or len(set(kd)) != 3
             if coll:
                 ctx.count('skipped.digest_collision')
                 continue
@@ -196,8 +204,13 @@ def scenario(ctx, rng, j):
         'ptlc': t_.make_ptlc_witness(X, fields, sigflags=f_hex),
         'ptlc_refund': t_.make_ptlc_refund_witness(X, fields, f_hex),
     }
+    kcoll = len({hashlib.shake_256(sigmsg.pubkey(z)).digest(hs)
+                 for z in (R, F, X)}) != 3
     for wn, w in foreign.items():
         for ln, lk in locks.items():
+            if ln == 'htlc2_shake256' and kcoll:
+                ctx.count('skipped.digest_collision')
+                continue
             judge(f'cross-foreign:{wn}->{ln}', lk, w, False)
     own = {'htlc': t_.make_htlc_witness(R, pre, fields, f_hex),
            'ptlc': t_.make_ptlc_witness(R, fields, sigflags=f_hex)}
